@@ -126,7 +126,10 @@ class Extractor:
         if not isinstance(cur, ast.Name) or cur.id not in (self.a, self.b):
             return None
         side = "self" if cur.id == self.a else "other"
-        path = ".".join(PROJ_ALIASES.get(p, p.lstrip("_")) for p in reversed(parts)) or "<obj>"
+        comps = list(reversed(parts))
+        if comps and not comps[0].endswith("()"):
+            comps[0] = self.ctx.canon_field(self.cls, comps[0])
+        path = ".".join(PROJ_ALIASES.get(p, p.lstrip("_")) for p in comps) or "<obj>"
         return side, path
 
     def _local(self, e):
